@@ -19,7 +19,7 @@ def placement(draw, nsearch):
 
 
 @st.composite
-def rebuild_case(draw, tier, prepopulate=False):
+def rebuild_case(draw, tier, prepopulate=False, partial_decoys=False):
     ntor = draw(st.sampled_from([1, 1, 1, 2, 3]))
     nsearch = draw(st.integers(1, 3))
     torrents = []
@@ -28,30 +28,49 @@ def rebuild_case(draw, tier, prepopulate=False):
         t = draw(trees.tree(P, max_files=5 if tier == "quick" else 9, modes=trees.MODES_NZ, big=False, nonempty_total=True))
         t = dict(t)
         t["name"] = "%s-t%d" % (t["name"], ti)
-        if not t["single"] and len(t["files"]) == 1 and t["files"][0]["path"] == [t["name"]]:
-            t["files"][0]["path"] = [t["name"] + "~f"]
+        creator = draw(st.sampled_from(CREATORS))
+        if not t["single"] and len(t["files"]) == 1:
+            if t["files"][0]["path"] == [t["name"]]:
+                t["files"][0]["path"] = [t["name"] + "~f"]
+            if creator in ("TorrentFile", "Assembler3", "TorrentFileHybrid") and draw(st.booleans()):
+                # "directory x holding only file x": unambiguous for v1 and hybrid (they have info.files)
+                t["files"][0]["path"] = [t["name"]]
         files = []
         for f in t["files"]:
             e = {"place": draw(placement(nsearch)), "decoy": None, "pre": "none"}
             if f["size"] > 0 and draw(st.sampled_from([True] + [False] * 2)):
                 e["decoy"] = draw(placement(nsearch))
+                # 'all': every byte differs (C14's decoy); the partial kinds agree with the real file in some pieces
+                e["decoy_kind"] = draw(st.sampled_from(["all", "all", "all", "same-first-piece", "same-tail", "one-byte"])) if partial_decoys else "all"
             if prepopulate:
                 e["pre"] = draw(st.sampled_from(["none", "none", "correct", "wrong-full", "shorter", "shorter-wrong"]))
             files.append(e)
-        torrents.append({"tree": t, "P": P, "creator": draw(st.sampled_from(CREATORS)), "files": files})
+        torrents.append({"tree": t, "P": P, "creator": creator, "files": files})
     unrelated = draw(st.lists(st.tuples(placement(nsearch), trees.name_component(), st.integers(0, 3000)), max_size=3))
     case = {"torrents": torrents, "nsearch": nsearch,
             "unrelated": [{"place": p, "name": n, "size": s} for p, n, s in unrelated],
             "order": draw(st.sampled_from([0, 1, 2, 3, 5, 8])),
-            "metafiles_as_dir": draw(st.booleans())}
+            "metafiles_as_dir": draw(st.booleans()),
+            "dest_via_symlink": draw(st.sampled_from([False, False, False, True]))}
     if prepopulate:
         case["repeats"] = draw(st.integers(1, 3))
+        # between two rebuilds: a source file is replaced in place by its every-byte-different decoy (same size, old
+        # timestamps restored) and the copy already placed in the destination is deleted by the user
+        case["swap_between"] = draw(st.sampled_from([None, None, {"torrent": draw(st.integers(0, 2)), "file": draw(st.integers(0, 8))}]))
         case["dest_unrelated"] = draw(st.lists(st.tuples(trees.name_component(), st.integers(0, 2000)), max_size=2))
     return case
 
 
-def decoy_bytes(data):
-    return bytes(b ^ 0x55 for b in data)
+def decoy_bytes(data, kind="all", P=16384):
+    other = bytes(b ^ 0x55 for b in data)
+    if kind == "same-first-piece" and len(data) > P:
+        return data[:P] + other[P:]
+    if kind == "same-tail" and len(data) > P:
+        return other[:len(data) - P] + data[len(data) - P:]
+    if kind == "one-byte" and len(data) > 1:
+        i = len(data) // 2
+        return data[:i] + other[i:i + 1] + data[i + 1:]
+    return other
 
 
 def basename_of(tree, f):
@@ -97,7 +116,10 @@ def build(scr, case):
     metas = []
     taken = set()
     sources = {}   # basename -> list of bytes available in the search dirs (real copies only)
+    placed_at = {}   # (torrent index, file index) -> path of the real copy in the search dirs
+    placed_at_idx = {}
     decoys = []    # (basename, bytes)
+    partial = []   # (basename, bytes) of decoys that share some pieces with the real file
     for ti, tor in enumerate(case["torrents"]):
         tree = tor["tree"]
         root = sandbox.materialize(tree, orig)
@@ -111,15 +133,20 @@ def build(scr, case):
         for f, e in zip(tree["files"], tor["files"]):
             name = basename_of(tree, f)
             data = sandbox.file_bytes(f)
-            _place(search, e["place"], name, data, taken)
+            placed_at[(ti, len(placed_at_idx.setdefault(ti, [])))] = _place(search, e["place"], name, data, taken)
+            placed_at_idx[ti].append(1)
             sources.setdefault(name, []).append(data)
             if e["decoy"] is not None:
-                dd = decoy_bytes(data)
+                kind = e.get("decoy_kind", "all")
+                dd = decoy_bytes(data, kind, tor["P"])
                 _place(search, e["decoy"], name, dd, taken)
-                decoys.append((name, dd))
+                if dd == decoy_bytes(data):
+                    decoys.append((name, dd))          # every byte differs
+                else:
+                    partial.append((name, dd))         # agrees with the real file somewhere
     for u in case["unrelated"]:
         _place(search, u["place"], u["name"], sandbox.content("rnd", u["size"], u["size"]), taken)
-    return {"metafiles": metas, "metadir": mdir, "search": search, "sources": sources, "decoys": decoys}
+    return {"metafiles": metas, "metadir": mdir, "search": search, "sources": sources, "decoys": decoys, "partial": partial, "placed_at": placed_at}
 
 
 def run_rebuild(layout, case, dest):
@@ -147,3 +174,13 @@ def listed_files(m):
     if es is None:
         return [(name, m.info[b"length"])]
     return [(os.path.join(name, *c), ln) for c, ln, pad in es if not pad]
+
+
+def make_dest(scr, case):
+    """The destination directory; optionally reached through a symbolic link in its parent path."""
+    real = os.path.join(scr, "dest-real")
+    os.makedirs(os.path.join(real, "d"))
+    if case.get("dest_via_symlink"):
+        os.symlink(real, os.path.join(scr, "dest-link"))
+        return os.path.join(scr, "dest-link", "d")
+    return os.path.join(real, "d")
